@@ -279,7 +279,14 @@ theorem socks_tables_coupled (c : Cfg) (ops : List Op) :
     (∀ m : Meta, hasPipe s m = s.assocs.any (fun a => a.src == m.src && a.peers.contains m.dst)) ∧
     (s.assocs.map (·.src)).Nodup ∧ (s.assocs.map (·.id)).Nodup ∧
     (∀ a ∈ s.assocs, a.peers ≠ [] ∧ a.peers.Nodup) ∧ (s.pipe.map (·.key)).Nodup := by
-  sorry
+  have h : Inv (after c ops) := runFrom_inv c ops
+  refine ⟨?_, h.a.srcNd, h.a.idNd, fun a ha => (h.a.good a ha).2, h.keyNd⟩
+  intro m
+  have hc := h.coupled m
+  rw [Bool.eq_iff_iff]
+  simp only [hasPipe, List.any_eq_true, beq_iff_eq, Bool.and_eq_true, List.contains_eq_mem,
+    decide_eq_true_eq]
+  simpa [Cov] using hc
 
 /-- **closing one flow leaves the association to its siblings**: with two live flows of one
 source, closing one keeps the same association (same socket), now without that peer -/
@@ -289,30 +296,42 @@ theorem sibling_flow_keeps_association (c : Cfg) (ops : List Op) (m m' : Meta) (
     (ha : findAssoc (after c ops) m.src = some a) :
     findAssoc (closeFlow (after c ops) m) m.src = some { a with peers := a.peers.filter (· != m.dst) } ∧
     m'.dst ∈ a.peers.filter (· != m.dst) := by
-  sorry
+  have h : Inv (after c ops) := runFrom_inv c ops
+  obtain ⟨ha1, ha2⟩ := find?_src_some ha
+  have hmem : m'.dst ∈ a.peers.filter (· != m.dst) := by
+    have hp : ∃ e ∈ (after c ops).pipe, e.key = m' := by
+      simpa [hasPipe] using h2
+    obtain ⟨a', ha', hs', hd'⟩ := (h.coupled m').1 hp
+    have : a' = a := eq_of_nodup_map (·.src) h.a.srcNd ha' ha1 (by rw [hs', ← hs, ha2])
+    subst this
+    simp only [List.mem_filter, bne_iff_ne]
+    exact ⟨hd', fun e => hd e.symm⟩
+  have _ := h1
+  exact ⟨find?_close_keep _ ha (List.ne_nil_of_mem hmem), hmem⟩
 
 /-- ... and the last flow of a source releases it -/
 theorem last_flow_releases_association (c : Cfg) (ops : List Op) (m : Meta) (a : Assoc)
     (ha : findAssoc (after c ops) m.src = some a) (hp : a.peers = [m.dst]) :
     findAssoc (closeFlow (after c ops) m) m.src = none ∧
     (closeFlow (after c ops) m).gauge + 1 = (after c ops).gauge := by
-  sorry
+  have h : Inv (after c ops) := runFrom_inv c ops
+  exact find?_close_last _ h.a.srcNd ha (by simp [hp])
 
 /-- **a datagram is sent to exactly its destination, a reply is labelled with the flow the server
 answered** -/
 theorem socks_routing (c : Cfg) (ops : List Op) :
     ∀ o ∈ obsOf c ops, (∀ x ∈ o.srv, x.1 = x.2.1.dst) ∧ (∀ x ∈ o.cli, x.1 = x.2.1) := by
-  sorry
+  exact run_obs_forall (P := Routed) (fun s op hs => step_routed s op hs) (inv_init c) ops
 
 /-- **only the client going away ends the multiplexer** -/
 theorem socks_only_close_terminates (c : Cfg) (ops : List Op) (h : ∀ op ∈ ops, op ≠ .close) :
     (after c ops).finished = false := by
-  sorry
+  exact run_not_finished c (init c) ops rfl h
 
 /-- an operation on a flow of another source leaves a source's association untouched -/
 theorem other_sources_undisturbed (c : Cfg) (ops : List Op) (m : Meta) (len src : Nat) (hne : src ≠ m.src) :
     findAssoc (step c (after c ops) (.dg m len)).1 src = findAssoc (after c ops) src := by
-  sorry
+  exact step_dg_other c _ m len hne
 
 example :
     let c : Cfg := { timeout := 8000, kinds := [.live, .live, .dns, .dead, .unconn] }
